@@ -42,7 +42,9 @@ where
         let extended_buf =
             unsafe { mem::transmute::<&[u8], &'static [u8]>(data.as_slice()) };
 
-        if extended_buf.len() < 4 {
+        // The buffer must hold the checksum and at least the fixed-size archived value,
+        // otherwise the unchecked `archived_root` call below reads outside of the buffer.
+        if extended_buf.len() < 4 + mem::size_of::<T::Archived>() {
             return Err(InvalidView);
         }
 
